@@ -123,7 +123,8 @@ VARIABLES
   wire,        \* [Conns -> Seq(message)]
   \* proxy state of a connection's bus.Client
   cnt, hk,     \* [Keys -> Int]
-  lock,        \* [Keys -> thread or NoThread]: only used when ~Dev_ProxySectionsNotAtomic
+  lock,        \* [Keys -> thread or NoThread]: the thread inside a proxy section; it excludes
+               \*   the others only when ~Dev_ProxySectionsNotAtomic
   \* threads
   pc, h, round, nextU,
   \* client side of a subscription
@@ -136,14 +137,15 @@ VARIABLES
   cancelled,   \* [Threads -> BOOLEAN]: cancel requested (current subscription)
   cancelAt,    \* [Threads -> Int]: emit calls that had returned when the cancel was requested
   unregAcked,  \* set of <<c, u>>: the removal of u was acknowledged on connection c
-  lateSend     \* an event for an acknowledged removal was sent afterwards
+  lateSend,    \* an event for an acknowledged removal was sent afterwards
+  devUsed      \* the deviations this behaviour needed (a conforming design would have blocked)
 
 srv  == <<regs, mbox, srep>>
 emv  == <<em, called, started, completed, emitted>>
 prox == <<cnt, hk, lock>>
 thr  == <<pc, h, round, nextU>>
 cli  == <<lh, q, got, closed>>
-obs  == <<ackAt, cancelled, cancelAt, unregAcked, lateSend>>
+obs  == <<ackAt, cancelled, cancelAt, unregAcked, lateSend, devUsed>>
 vars == <<srv, emv, wire, prox, thr, cli, obs>>
 
 NoReply == [c |-> "", th |-> "", ok |-> TRUE, u |-> 0, unreg |-> FALSE]
@@ -159,7 +161,7 @@ Init ==
   /\ lh = [t \in Threads |-> FALSE] /\ q = [t \in Threads |-> <<>>] /\ got = [t \in Threads |-> <<>>]
   /\ closed = [t \in Threads |-> FALSE]
   /\ ackAt = [t \in Threads |-> -1] /\ cancelled = [t \in Threads |-> FALSE]
-  /\ cancelAt = [t \in Threads |-> 0] /\ unregAcked = {} /\ lateSend = FALSE
+  /\ cancelAt = [t \in Threads |-> 0] /\ unregAcked = {} /\ lateSend = FALSE /\ devUsed = {}
 
 Goto(th, l) == pc' = [pc EXCEPT ![th] = l]
 
@@ -172,15 +174,18 @@ SubLocal(th) ==
   /\ got' = [got EXCEPT ![th] = <<>>] /\ closed' = [closed EXCEPT ![th] = FALSE]
   /\ ackAt' = [ackAt EXCEPT ![th] = -1] /\ cancelled' = [cancelled EXCEPT ![th] = FALSE]
   /\ Goto(th, "inc")
-  /\ UNCHANGED <<srv, emv, wire, prox, h, round, nextU, cancelAt, unregAcked, lateSend>>
+  /\ UNCHANGED <<srv, emv, wire, prox, h, round, nextU, cancelAt, unregAcked, lateSend, devUsed>>
 
 \* a conforming implementation makes SubInc..registration acknowledged and
 \* UnsubDec..removal acknowledged one critical section per (connection, signal)
-Free(th)    == Dev_ProxySectionsNotAtomic \/ lock[Key(th)] = NoThread
-Acquire(th) == IF Dev_ProxySectionsNotAtomic THEN UNCHANGED lock
-               ELSE lock[Key(th)] = NoThread /\ lock' = [lock EXCEPT ![Key(th)] = th]
-Release(th) == IF Dev_ProxySectionsNotAtomic THEN UNCHANGED lock
-               ELSE lock' = [lock EXCEPT ![Key(th)] = NoThread]
+\* (with the deviation the lock is only tracked: entering an occupied section is
+\* possible and recorded in devUsed)
+Busy(th)    == lock[Key(th)] # NoThread /\ lock[Key(th)] # th
+Free(th)    == Dev_ProxySectionsNotAtomic \/ ~Busy(th)
+Acquire(th) == /\ Free(th)
+               /\ lock' = [lock EXCEPT ![Key(th)] = th]
+Release(th) == lock' = [lock EXCEPT ![Key(th)] = IF @ = th THEN NoThread ELSE @]
+Overlap(th) == devUsed' = IF Busy(th) THEN devUsed \cup {"Dev_ProxySectionsNotAtomic"} ELSE devUsed
 
 SubInc(th) ==
   /\ pc[th] = "inc"
@@ -188,7 +193,8 @@ SubInc(th) ==
   /\ IF cnt'[Key(th)] = 1
      THEN Acquire(th) /\ Goto(th, "key")
      ELSE Free(th) /\ UNCHANGED lock /\ Goto(th, "ackready")
-  /\ UNCHANGED <<srv, emv, wire, hk, h, round, nextU, cli, obs>>
+  /\ Overlap(th)
+  /\ UNCHANGED <<srv, emv, wire, hk, h, round, nextU, cli, ackAt, cancelled, cancelAt, unregAcked, lateSend>>
 
 SubKey(th) ==
   /\ pc[th] = "key"
@@ -208,7 +214,7 @@ Ack(th) ==
   /\ pc[th] = "ackready"
   /\ ackAt' = [ackAt EXCEPT ![th] = called]
   /\ Goto(th, "acked")
-  /\ UNCHANGED <<srv, emv, wire, prox, h, round, nextU, cli, cancelled, cancelAt, unregAcked, lateSend>>
+  /\ UNCHANGED <<srv, emv, wire, prox, h, round, nextU, cli, cancelled, cancelAt, unregAcked, lateSend, devUsed>>
 
 \* ---------------------------------------------------------------------------
 \* server: the object's mailbox goroutine
@@ -249,11 +255,13 @@ ServerUnreg ==
   /\ UNCHANGED <<emv, wire, prox, thr, cli, obs>>
 
 \* SendReply / SendError of the request just processed
+SendPending == srep.unreg /\ srep.ok /\
+               \E i \in 1..Len(em.pending) : em.pending[i].u = srep.u /\ em.pending[i].c = srep.c
 ServerReply ==
   /\ srep.c # ""
   \* a conforming server does not acknowledge a removal while a send for it is pending
-  /\ (srep.unreg /\ srep.ok /\ ~Dev_SendAfterSnapshot)
-        => ~\E i \in 1..Len(em.pending) : em.pending[i].u = srep.u /\ em.pending[i].c = srep.c
+  /\ Dev_SendAfterSnapshot \/ ~SendPending
+  /\ devUsed' = IF SendPending THEN devUsed \cup {"Dev_SendAfterSnapshot"} ELSE devUsed
   /\ wire' = [wire EXCEPT ![srep.c] = Append(@, Reply(srep.th, srep.ok))]
   /\ unregAcked' = IF srep.unreg /\ srep.ok THEN unregAcked \cup {<<srep.c, srep.u>>} ELSE unregAcked
   /\ srep' = NoReply
@@ -282,7 +290,7 @@ SendTo ==
        /\ wire' = [wire EXCEPT ![r.c] = Append(@, EventMsg(r.sig, em.k, r.u))]
        /\ lateSend' = (lateSend \/ <<r.c, r.u>> \in unregAcked)
   /\ em' = [em EXCEPT !.pending = Tail(@)]
-  /\ UNCHANGED <<srv, called, started, completed, emitted, prox, thr, cli, ackAt, cancelled, cancelAt, unregAcked>>
+  /\ UNCHANGED <<srv, called, started, completed, emitted, prox, thr, cli, ackAt, cancelled, cancelAt, unregAcked, devUsed>>
 
 EmitEnd ==
   /\ em.pc = "sending" /\ em.pending = <<>>
@@ -325,7 +333,7 @@ CancelReq(th) ==
   /\ cancelled' = [cancelled EXCEPT ![th] = TRUE]
   /\ cancelAt' = [cancelAt EXCEPT ![th] = completed]
   /\ Goto(th, "dec")
-  /\ UNCHANGED <<srv, emv, wire, prox, h, round, nextU, cli, ackAt, unregAcked, lateSend>>
+  /\ UNCHANGED <<srv, emv, wire, prox, h, round, nextU, cli, ackAt, unregAcked, lateSend, devUsed>>
 
 UnsubDec(th) ==
   /\ pc[th] = "dec"
@@ -333,7 +341,8 @@ UnsubDec(th) ==
   /\ IF cnt'[Key(th)] = 0
      THEN Acquire(th) /\ Goto(th, "read")
      ELSE Free(th) /\ UNCHANGED lock /\ Goto(th, "lcancel")
-  /\ UNCHANGED <<srv, emv, wire, hk, h, round, nextU, cli, obs>>
+  /\ Overlap(th)
+  /\ UNCHANGED <<srv, emv, wire, hk, h, round, nextU, cli, ackAt, cancelled, cancelAt, unregAcked, lateSend>>
 
 UnsubRead(th) ==
   /\ pc[th] = "read"
